@@ -40,7 +40,6 @@ _PENDING = "no check built (see DESIGN.md)"
 NOT_APPLICABLE = {
     "C03": "asymptotic convergence rate over unbounded float trajectories: needs whole multi-iteration solve runs (one iteration of the trivial game is a 23M-variable formula) and an induction over T; proof-assistant territory, not bounded solving (DESIGN.md C03)",
     "C04": "probabilistic statement over thousands of iterations; with draws symbolic the solver quantifies over adversarial draw sequences, for which the statement is false by design (DESIGN.md C04)",
-    "C17": "depends on which byte strings serde_json / gambit-parser (nom, big rationals) reject and on process exit status and stream contents; symbolic execution of those parsers over a symbolic buffer is far beyond reach of Kani here (DESIGN.md C17)",
 }
 for _p in [f"C{i:02d}" for i in range(1, 20)]:
     if _p not in REGISTRY and _p not in NOT_APPLICABLE:
@@ -590,7 +589,7 @@ def _eval(prop, tier):
 REGISTRY["C01"] = {
     "level": "other",
     "explanation": "Symbolic execution of rustc's MIR of src/regret.rs: `regret` (acyclic) and ONE iteration, from an arbitrary state (arbitrary popped (node, reach), accumulator, tables), of the "
-                   "work-list loops of `expected`, `next_infoset_search` and of the reach-collection loop of `optimal_deviations` (inner for-loops unrolled <= 2 children; Vec, iterators, zip and the "
+                   "work-list loops of `expected`, `next_infoset_search` and of both loops (reach collection, leaves-first resolution) of `optimal_deviations` (inner for-loops unrolled <= 2 children, <= 4 in the thorough tier; Vec, iterators, zip and the "
                    "infoset tables uninterpreted). Decided per step: a terminal adds reach x payoff (sign by deviating player); a chance node schedules every outcome with probability x reach from "
                    "the node's chance infoset; an opponent / acting node schedules its actions with (that player's probability at the node's infoset) x reach and z3 shows an action is skipped only if "
                    "its probability is not positive (every f64); an own node contributes reach x the value resolved for its infoset (search) or is recorded with its reach under its infoset, counted as "
@@ -598,12 +597,73 @@ REGISTRY["C01"] = {
                    "player's infosets against the other player's strategy and z3 shows regret_i = max(best_i -/+ utility, 0). The MIR is dumped from /repo's current tree on every run.",
     "assumptions": ["rustc's MIR dump is the program that is compiled", "Vec / iterator / zip / table accessors behave as documented (uninterpreted)",
                     "that the per-step recurrences add up to the exact expected value and best response on whole trees is an induction argument (needs perfect recall, which C11 establishes per node), not a query",
-                    "the leaves-first resolution loop of optimal_deviations (ordering by pending counts, normalisation by total reach) is NOT covered"],
+                    "inner loops over children unrolled to 2 (quick) / 4 (thorough) children"],
     "parts": [_eval],
 }
 MANIFEST_TEXT["C01"] = {
     "engine": "mirsmt",
     "technique": "MIR-to-SMT symbolic execution of regret() and of one iteration of each work-list loop of the evaluator, decided by z3",
-    "text": "Partial: for every path through one iteration of the evaluator's three work-list loops (arbitrary popped node and state) the recurrences of the expected value and of the best-response search are the textbook ones (terminal, chance, own and opponent nodes; which tables; which weights; zero-probability actions the only ones skipped), and regret() combines them as max(best response - utility, 0) for each player with the right tables. The leaves-first resolution loop (pending counts, division by the total reach) and the whole-tree exactness statement are not claimed.",
-    "note": "Level 'other'. A finding is confirmed natively by comparing Strategies::get_info with an independent evaluation (recursion for the utility, enumeration of all pure strategies for the best response) on three imperfect-information games x 40 profiles (replay crate, c01).",
+    "text": "Partial: for every path through one iteration of the evaluator's three work-list loops (arbitrary popped node and state) the recurrences of the expected value and of the best-response search are the textbook ones (terminal, chance, own and opponent nodes; which tables; which weights; zero-probability actions the only ones skipped), and regret() combines them as max(best response - utility, 0) for each player with the right tables. One iteration of the leaves-first resolution loop is covered too (nodes of the popped infoset, total reach, pending counts and readiness of the previous infoset, accumulation of continuation values, max over actions divided by the total reach, start set). The whole-tree exactness statement (induction over the infoset forest) is not claimed.",
+    "note": "Level 'other'. A finding is confirmed natively by comparing Strategies::get_info with an independent evaluation (recursion for the utility, enumeration of all pure strategies for the best response) on seven small imperfect-information games x 67 profiles (replay crate, c01).",
+}
+
+
+# C12, structural half at the level of ONE constructor step (same E2 run as C11, other obligations)
+_C12_KEYS = ("ctor-normalise-by-sum", "ctor-compare-normalised", "ctor-table-child", "ctor-table-tail", "ctor-single-recursion", "ctor-chance-recursion", "ctor-helper-chance-data", "ctor-helper-opt-counter")
+
+
+def _ctor_c12(prop, tier):
+    import ctor_check
+    r = ctor_check.run(prop, tier)
+    keep = []
+    for f in r["findings"]:
+        if any(f.key.split(":", 1)[1].startswith(k) for k in _C12_KEYS):
+            f.native_kind = "c11"
+            keep.append(f)
+    r["findings"] = keep
+    r["obligations"] = [o for o in r["obligations"] if any(o[1].startswith(k) for k in _C12_KEYS)]
+    return r
+
+
+REGISTRY["C12"]["parts"] = [_ctor_c12]
+REGISTRY["C12"]["explanation"] = REGISTRY["C12"]["explanation"].replace(
+    "The structural invariances (chance weight rescaling, inserting/removing single-outcome and single-action nodes, renaming) live in "
+    "Game::from_root, whose symbolic execution is out of reach (see C11), and are NOT claimed.",
+    "The structural invariances are decided only per constructor step (E2 on one invocation of Game::init_recurse, shared with C11): the probabilities stored and compared for a chance "
+    "infoset are weight / (sum of the kept weights) - a function that exact rescaling leaves unchanged -, a single-outcome chance node and a single-action decision node contribute no node "
+    "of their own (the child's node is returned / the recursion continues with the unchanged context), anonymous chance nodes are numbered by a counter and labels are only compared for "
+    "equality (renaming). That whole solves are therefore invariant is an argument, not a query.")
+MANIFEST_TEXT["C12"]["engine"] = "kani+mirsmt"
+MANIFEST_TEXT["C12"]["technique"] += "; MIR-to-SMT path analysis of one constructor step for the structural invariances"
+MANIFEST_TEXT["C12"]["text"] = ("Partial: the solver decides the payoff-scaling and player-mirror relations for one traversal step and for regret matching / the reported bound, for all inputs on exact grids. "
+                                "Re-presentation of the tree is decided per constructor step only (one invocation of Game::init_recurse from the MIR): stored chance probabilities are weight / sum of kept weights, "
+                                "degenerate (single-outcome, single-action) nodes leave no node behind, anonymous chance nodes get fresh numbers. The trajectory-level statement is not claimed.")
+MANIFEST_TEXT["C12"]["note"] = "Step-level relations only; invariance of whole solves under re-presentation follows by an argument from the per-step facts and is not a query."
+
+
+# ---------------------------------------------------------------------------------------------
+# E2 for the CLI's read-or-die glue (what the parsers accept stays outside)
+def _glue(prop, tier):
+    import glue_check
+    return glue_check.run(prop, tier)
+
+
+REGISTRY["C17"] = {
+    "level": "other",
+    "explanation": "Symbolic execution of rustc's MIR of the binary's reader glue (json::from_reader, json::from_state, json::from_str, auto::from_reader, gambit::from_reader, gambit::from_str; all acyclic) "
+                   "and of the call order in `main`, with the parsers (serde_json, gambit-parser), get_global_info, Game::from_root and Game::solve uninterpreted. For every path: a reader returns a game "
+                   "only through the parser's Ok arm AND Game::from_root's Ok arm (Gambit: AND exactly two players); every other arm diverges through expect / panic! with the documented diagnostic "
+                   "(#json-error, #gambit-error, #auto-error, #game-error, the player-count message) or, in the from_str functions, passes the parser's error to the caller that diverges; auto detection "
+                   "tries JSON, then Gambit, then diverges; `main` opens / writes its output only after the reader returned and the solver returned Ok for the game that was read. "
+                   "The MIR is dumped from /repo's current tree on every run.",
+    "assumptions": ["rustc's MIR dump is the program that is compiled", "Result::expect / unwrap / panic! diverge and a panicking process exits with a non-zero status and prints the message on stderr (std)",
+                    "WHICH byte strings the parsers reject, and the validation loops of gambit::get_global_info (constant sum, non-finite payoffs, infoset name clashes), are NOT covered",
+                    "which trees Game::from_root rejects is C11's subject"],
+    "parts": [_glue],
+}
+MANIFEST_TEXT["C17"] = {
+    "engine": "mirsmt",
+    "technique": "MIR-to-SMT style path analysis of the CLI's reader glue and of main's call order (structural obligations on every path; no arithmetic is involved)",
+    "text": "Partial: for every path through the CLI's reader functions a game is handed to the solver only if the selected parser succeeded and Game::from_root accepted the tree (and a Gambit file has exactly two players); all other paths end the process through expect / panic! with the documented diagnostic, and main prints a result object only after reader and solver returned. Which inputs the third-party parsers and the Gambit validation loops reject is not claimed.",
+    "note": "Level 'other'. Thin by design: the part of this property that lives in serde_json / gambit-parser / get_global_info cannot be encoded. A finding is confirmed natively by running the built binary on 65 corrupted JSON / Gambit inputs under every input route (exit status, empty stdout, documented diagnostic on stderr) plus three valid controls.",
 }
